@@ -148,6 +148,10 @@ def gen_verify(g):
         if v == 6:   # r = 0 / r replaced
             g.add('ecdsa_s2c_verify_commit %s%s %s %s #%d' % (h32(0), h32(ss), data.hex(), pk_obj(Q), a), 'verify_commit_r_zero', '#0')
             g.add('ecdsa_s2c_verify_commit %s%s %s %s #%d' % (h32(N - rr), h32(ss), data.hex(), pk_obj(Q), a), 'verify_commit_r_negated', '#0')
+            # s is never looked at by verify_commit: s = 0 / n-1 with the right r commit, with a wrong r they do not
+            g.add('ecdsa_s2c_verify_commit %s%s %s %s #%d' % (h32(rr), h32(0), data.hex(), pk_obj(Q), a), 'verify_commit_s_zero_right_r', '#1')
+            g.add('ecdsa_s2c_verify_commit %s%s %s %s #%d' % (h32((rr + 1) % N), h32(0), data.hex(), pk_obj(Q), a), 'verify_commit_s_zero_wrong_r', '#0')
+            g.add('anti_exfil_host_verify %s%s %s %s %s %s #%d' % (h32(rr), h32(0), h32(m), pk_obj(X), data.hex(), pk_obj(Q), a), 'host_verify_s_zero', '#0')
         if v == 7:   # signature made for the same data with a different original nonce
             t2 = s2c_sign_k(d, m % N, r.seckey(), data)
             if t2: g.add('ecdsa_s2c_verify_commit %s%s %s %s #%d' % (h32(t2[0]), h32(t2[1]), data.hex(), pk_obj(Q), a), 'verify_commit_other_nonce', '#0')
